@@ -17,6 +17,10 @@ pub enum Reg {
         /// it declares must be created by someone else or exist beforehand
         #[serde(default)]
         expect: bool,
+        /// the system's data is a library type (`Read` / `Write` / pair / unit); at most one read
+        /// and one write, over controller-expressible resources
+        #[serde(default)]
+        typed: bool,
     },
     Barrier,
     Tl {
@@ -184,7 +188,7 @@ pub fn infos(regs: &[Reg]) -> Vec<SysInfo> {
         for r in regs {
             match r {
                 Reg::Barrier => epoch += 1,
-                Reg::Sys { name, deps, reads, writes, hint, expect } => {
+                Reg::Sys { name, deps, reads, writes, hint, expect, .. } => {
                     let sid = out.len();
                     let d = deps
                         .iter()
@@ -510,7 +514,7 @@ fn gen_regs(rng: &mut Rng, cfg: &GenCfg, k: &Knobs, resmap: &[RKey], budget: &mu
             let x = rng.below(k.nres as u64) as usize;
             let y = (x + 1 + rng.below(k.nres as u64 - 1) as usize) % k.nres;
             let heavy = gen_name(rng, &mut names, k);
-            regs.push(Reg::Sys { name: heavy, deps: vec![], reads: vec![], writes: vec![y], hint: 5, expect: false });
+            regs.push(Reg::Sys { name: heavy, deps: vec![], reads: vec![], writes: vec![y], hint: 5, expect: false, typed: false });
             let n = 4 + rng.below(3) as usize;
             let bulky = k.nres >= 11 && rng.chance(1, 2);
             // what the bulky members mostly do with the other resources: the first writes and the
@@ -549,7 +553,7 @@ fn gen_regs(rng: &mut Rng, cfg: &GenCfg, k: &Knobs, resmap: &[RKey], budget: &mu
                     rng.shuffle(&mut reads);
                     rng.shuffle(&mut writes);
                 }
-                regs.push(Reg::Sys { name: nm, deps: vec![], reads, writes, hint: 1, expect: false });
+                regs.push(Reg::Sys { name: nm, deps: vec![], reads, writes, hint: 1, expect: false, typed: false });
             }
             *budget -= n + 1;
             placed += n + 1;
@@ -571,8 +575,32 @@ fn gen_regs(rng: &mut Rng, cfg: &GenCfg, k: &Knobs, resmap: &[RKey], budget: &mu
         if !name.is_empty() {
             named_since_start.push(name.clone());
         }
-        let expect = rng.chance(1, 8);
-        regs.push(Reg::Sys { name, deps, reads, writes, hint, expect });
+        let mut expect = rng.chance(1, 8);
+        let mut typed = false;
+        let okres: Vec<usize> = (0..k.nres).filter(|&i| ctl_ok(&resmap[i])).collect();
+        if rng.chance(1, 7) {
+            // library system data: Read<T> / Write<T> / (Read<T>, Write<U>) / ()
+            typed = true;
+            expect = false;
+            reads.clear();
+            writes.clear();
+            if !okres.is_empty() {
+                match rng.below(4) {
+                    0 => {}
+                    1 => reads.push(*rng.pick(&okres)),
+                    2 => writes.push(*rng.pick(&okres)),
+                    _ => {
+                        let r = *rng.pick(&okres);
+                        reads.push(r);
+                        let w = *rng.pick(&okres);
+                        if w != r {
+                            writes.push(w);
+                        }
+                    }
+                }
+            }
+        }
+        regs.push(Reg::Sys { name, deps, reads, writes, hint, expect, typed });
         *budget -= 1;
         placed += 1;
     }
